@@ -155,7 +155,7 @@ def run(ctx):
     # crossover probabilities ASSIGNED FROM A GENETIC MAP (Haldane): the map's distances are -ln(1-2p)/2, so the declared
     # probabilities are the layout's; the matrix was built with other genetic positions and annotated with another map first
     # (a revised map must replace whatever positions the matrix held)
-    def map_annotated_parents(xoprob, first_label=1, kosambi=False, shuffled=False):
+    def map_annotated_parents(xoprob, first_label=1, kosambi=False, shuffled=False, distal=False):
         from pybrops.popgen.gmat.DensePhasedGenotypeMatrix import DensePhasedGenotypeMatrix
         from pybrops.popgen.gmap.StandardGeneticMap import StandardGeneticMap
         from pybrops.popgen.gmap.HaldaneMapFunction import HaldaneMapFunction
@@ -174,6 +174,18 @@ def run(ctx):
         pg.group_vrnt()
         first = StandardGeneticMap(vrnt_chrgrp=chrgrp, vrnt_phypos=phy, vrnt_genpos=phy.astype(float) * 1e-4)
         pg.interp_xoprob(first, HaldaneMapFunction())
+        if distal:
+            # the MAP covers only the interior markers of every chromosome; the first and last genotyped marker lie beyond its ends
+            # and get their positions by extrapolation (the default). Physical positions are proportional to genetic ones (1e-6 M
+            # per base), so the extrapolated distances are the declared ones
+            phy = np.array([1000 + int(round(1e6 * g_)) + 10 ** 7 * int(c_) for g_, c_ in zip(gen, chrgrp)], dtype="int64")
+            pg = DensePhasedGenotypeMatrix(mat=mat, taxa=np.array(["par%02d" % i for i in range(4)], dtype=object),
+                                           taxa_grp=np.zeros(4, dtype="int64"), vrnt_chrgrp=chrgrp, vrnt_phypos=phy)
+            pg.group_vrnt()
+            inner = np.array([j for j in range(Lx) if 0 < j < Lx - 1 and chrgrp[j - 1] == chrgrp[j] == chrgrp[j + 1]])
+            revised = StandardGeneticMap(vrnt_chrgrp=chrgrp[inner], vrnt_phypos=phy[inner], vrnt_genpos=gen[inner])
+            pg.interp_xoprob(revised, HaldaneMapFunction())
+            return pg
         if shuffled:
             # the map rows are supplied in arbitrary order and the map is built WITHOUT grouping: its spline is fitted to the rows
             # as supplied
@@ -201,6 +213,15 @@ def run(ctx):
                 cls(rng=g).mate(pg, np.array([row]), nn, 1, nself=0)
             return source_matrix(pkey, out.mat, row)
         add_stat(cls_name + ".mate[xoprob from a revised genetic map%s]" % (", Kosambi" if kos else ""), xoprob, runm)
+
+    distal_layout = [0.5, 0.1, 0.2, 0.25, 0.1, 0.05, 0.5, 0.2, 0.1, 0.25]
+    cls_d = getattr(importlib.import_module("pybrops.breed.prot.mate.TwoWayDHCross"), "TwoWayDHCross")
+    def rund(nn, seed):
+        g = np.random.default_rng(seed)
+        pg = map_annotated_parents(distal_layout, 1, False, False, distal=True)
+        out = cls_d(rng=g).mate(pg, np.array([[0, 1]]), 1, nn, nself=0)
+        return source_matrix("2wdh", out.mat, [0, 1])
+    add_stat("TwoWayDHCross.mate[xoprob from a genetic map, distal markers beyond the map ends]", distal_layout, rund)
 
     tl = [{k: v for k, v in c.items() if k not in ("run", "xoprob")} for c in stat]
     verd = cases.validate(ctx, "MeiosisProb_Trace", "MeiosisProb_Trace.cfg", allc + tl, "MeiosisProb_Trace",
